@@ -23,7 +23,7 @@ RULE = ("Cases: X 6..19 x 2..11 (thorough to 40 x 24) with column scales e^{N(0,
         "columns / exactly rank-deficient products with integer factors, global scale 10^[-3,6]; 1..3 targets = X B/max|X| + noise; "
         "alphas: 1..5 sorted values, absolute 10^[-12,3] or relative {0,1e-9} u 10^[-9,-0.05]; methods tikhonov / cutoff; scorers "
         "None / neg MSE / neg RMSE / r2; folds from cv=None (shuffle on/off, seeds), an explicit (train,test) pair covering all samples or only part of them, KFold(3) or ShuffleSplit(train_size=.4, test_size=.4); n_jobs "
-        "None (2 in ~1% of cases).  The oracle is evaluated with its rank threshold divided and multiplied by 30; if the two "
+        "None in the worker processes, 2 for a fixed set of generated cases run in the main process (joblib does not parallelise inside daemonic workers); 1-D y when one target.  The oracle is evaluated with its rank threshold divided and multiplied by 30; if the two "
         "evaluations differ the data does not determine the answer and the case is skipped.  Non-trivial: >= 2 alphas with different "
         "CV values, or rank-deficient X; distinct = SHA-1 of the canonical case.")
 ASSUMPTIONS = [
@@ -69,7 +69,7 @@ def strategy_(draw, tier):
             "method": draw(st.sampled_from(["tikhonov", "cutoff"])),
             "scoring": draw(st.sampled_from([None, "neg_mean_squared_error", "neg_root_mean_squared_error", "r2"])),
             "cv": cvk, "shuffle": draw(st.booleans()), "seed": draw(st.integers(0, 99)),
-            "n_jobs": 2 if draw(st.integers(0, 99)) == 0 else None, "Xnew": gen.normal(draw, (3, m))}
+            "n_jobs": None, "Xnew": gen.normal(draw, (3, m)), "y1d": p == 1 and draw(st.booleans())}
     if cvk == "explicit":
         perm = gen.permutation(draw, n)
         h = draw(st.integers(2, n - 2))
@@ -84,6 +84,26 @@ def strategy_(draw, tier):
 
 def strategy(tier):
     return strategy_(tier)
+
+
+def parent_cases(tier):
+    """n_jobs=2: joblib silently runs sequentially inside the daemonic worker processes of the runner, so the parallel
+    path is exercised here, in the main process, on cases drawn from the same strategy with a fixed seed."""
+    import hypothesis
+    from hypothesis import HealthCheck, given, seed, settings
+    out = []
+
+    @seed(20261004)
+    @settings(max_examples=24 if tier == "quick" else 120, database=None, deadline=None, derandomize=False,
+              suppress_health_check=list(HealthCheck), phases=[hypothesis.Phase.generate])
+    @given(strategy_(tier))
+    def collect(case):
+        if len(case["alphas"]) >= 3:
+            case = dict(case)
+            case["n_jobs"] = 2
+            out.append(case)
+    collect()
+    return out
 
 
 def solve(Xa, ya, alpha, method, thr):
@@ -141,9 +161,16 @@ def check(case, ctx):
     cv, kw, tr, te = folds(case)
     est = Ridge2FoldCV(alphas=alphas.copy(), alpha_type=atype, regularization_method=method, scoring=case["scoring"], cv=cv,
                        n_jobs=case["n_jobs"], **kw)
+    y1d = bool(case.get("y1d"))
     with ctx.lib("fit"):
-        est.fit(X, y)
+        est.fit(X, y[:, 0] if y1d else y)
         pn = est.predict(case["Xnew"])
+    if y1d:
+        ctx.cls("y1d")
+        ctx.true("1d-shapes", np.asarray(est.coef_).shape == (m,) and np.asarray(pn).shape == (len(case["Xnew"]),),
+                 "1-D y gives coef_ %s and predictions %s" % (np.asarray(est.coef_).shape, np.asarray(pn).shape))
+        est.coef_ = np.asarray(est.coef_).reshape(1, -1)
+        pn = np.asarray(pn).reshape(len(case["Xnew"]), 1)
     sf = np.linalg.svd(X, compute_uv=False)
     s1 = np.linalg.svd(X[tr], compute_uv=False)
     s2 = np.linalg.svd(X[te], compute_uv=False)
